@@ -177,20 +177,38 @@ def _is_buffered(ty, local):
     return ty.startswith(BUFFERED_STD) or ty in local
 
 
+def _drop_flushes(fx, ty):
+    """the type's own Drop flushes and consumes the Result (expect / unwrap: the process fails loudly)"""
+    db = fx.body("<%s as std::ops::Drop>::drop" % ty)
+    if db is None:
+        return False
+    for n, ps in walk_body(db):
+        if n.get("k") == "MethodCall" and callee_def(n) == "std::io::Write::flush":
+            nested = [p.get("k") for role, p in ps if p.get("k") in ("If", "Loop", "Closure") or (p.get("k") == "Match" and p.get("src") == "Normal")]
+            uses = final_uses(n, ps, db["value"])
+            if not nested and uses and all(u.kind == "checked" for u in uses):      # .expect() / .unwrap(): fails loudly
+                return True
+    return False
+
+
 def unflushed_sinks(fx, hb, local):
     """(local name, where, why) for every buffered sink owned by a local of this body that is written to but not
     flushed — with the flush result consumed — on the straight path to the function's successful end."""
     from ..facts import peel
     out = []
     owned = {}
+    by_drop = 0
     for n, ps in walk_body(hb):
         if n.get("k") == "Block":
             for st in n["block"]["stmts"]:
                 if st["k"] == "Let" and st["pat"].get("k") == "Binding" and _is_buffered(fx.tyname(st["pat"].get("ty")), local) \
                         and not (fx.tyname(st["pat"].get("ty")) or "").startswith("&"):
-                    owned[st["pat"]["lid"]] = (st["pat"].get("name"), loc(st))
+                    if _drop_flushes(fx, fx.tyname(st["pat"].get("ty"))):
+                        by_drop += 1
+                    else:
+                        owned[st["pat"]["lid"]] = (st["pat"].get("name"), loc(st))
     if not owned:
-        return out, 0
+        return out, by_drop
     order = {id(n): i for i, (n, ps) in enumerate(walk_body(hb))}
     for lid, (name, where) in owned.items():
         uses = []     # (order, kind)
@@ -227,7 +245,7 @@ def unflushed_sinks(fx, hb, local):
         if not good:
             why = "never flushed" if not flushes else "; ".join(f[2] or "flushed before the last write" for f in flushes)
             out.append((name, where, why))
-    return out, len(owned)
+    return out, len(owned) + by_drop
 
 
 def _flush(ck, fx, cg, reach):
